@@ -558,6 +558,15 @@ def sources_clause(ctx):
         from rules.stream import subst_once as _so16
         from sa.pattern import match_expr as _me16
         it_ = _so16(pr.node, lp.iter)
+        if isinstance(it_, ast.Call) and isinstance(it_.func, ast.Name):
+            # the loops moved into a generator helper of the module: the loop that yields the sub-flow resources is in there
+            g_ = repo.func('%s:%s' % (sc.module.name, it_.func.id), None)
+            if g_ is not None and not isinstance(g_.node, ast.Lambda) and g_.is_generator:
+                gl_ = [n for n in ast.walk(g_.node) if isinstance(n, ast.For) and any(isinstance(y, ast.Yield) for y in ast.walk(n))
+                       and not any(isinstance(x, ast.For) and x is not n for x in ast.walk(n))]
+                if len(gl_) == 1 and isinstance(gl_[0].target, ast.Name) and \
+                        all(pseudo(y.value) == gl_[0].target.id for y in ast.walk(gl_[0]) if isinstance(y, ast.Yield)):
+                    it_ = _so16(g_.node, gl_[0].iter)
         direct = isinstance(it_, ast.Attribute) and it_.attr == 'res_iter'
         direct = direct or (isinstance(it_, ast.Call) and u(it_.func) == 'enumerate' and it_.args and isinstance(it_.args[0], ast.Attribute)
                             and it_.args[0].attr == 'res_iter')
